@@ -355,6 +355,15 @@ def run(ck):
     with ck.section('R07.10'):
         _registry_run(ck, R10, prog)
 
+    R11 = ck.rule('R07.11', "a delay that cannot be legitimate always reaches the clock-jump reset: whatever the "
+                  "step of the wake-up procedure, a computed delay of more than one hour (the 24 fixed hourly "
+                  "wake-ups bound every legitimate delay) or of more than _TT_ERROR in the past takes the branch "
+                  "that tests for a time-tracking problem and sets the reset flag, so the scheduler never goes "
+                  "to sleep on it (a forward jump across midnight turns 'ten minutes' into '23 hours')",
+                  'abstract evaluation of the guard', 1)
+    with ck.section('R07.11'):
+        _jump_guard(ck, R11, prog)
+
     with ck.section('R07.5'):
         # ------------------------------------------------------------------ R07.5
         tdc = prog.cls(TD)
@@ -608,3 +617,51 @@ def _registry_run(ck, R10, prog):
     ck.ob(R10, f"{add.fid} / {rem.fid} :: abstract run", not bad,
           f"registry = registered blocks per time on all {n} call sequences" if not bad else '; '.join(bad[:2]),
           rem, rem.node)
+
+
+def _jump_guard(ck, R11, prog):
+    from sa.minieval import MiniEval, ModuleGlobals, _Fault, _Raised
+    mt = prog.func('blocklib.cron:Cron._maintask')
+    g = ck.cfg(mt.fid, 'M0')
+    # the statement that sets the reset flag from the size of the difference: reset.OR(... diff > _TT_ERROR)
+    sites = nodes_where(g, lambda n: any(call_name(c) in ('OR', 'set') and '_TT_ERROR' in norm(c)
+                                         for c in node_calls(n)))
+    ck.need(R11, len(sites) == 1, f"_maintask: expected one reset test mentioning _TT_ERROR, found {len(sites)}")
+    site = sites[0]
+    call = [c for c in node_calls(site) if call_name(c) in ('OR', 'set') and '_TT_ERROR' in norm(c)][0]
+    ck.need(R11, len(call.args) == 1, "_maintask: unexpected arguments of the reset test")
+    # the guards between the delay computation and that statement (tests inside the step loop)
+    loops = [n for n in g.nodes if n.kind == 'for' and g.dominates(n, site)]
+    ck.need(R11, loops, "_maintask: the step loop was not recognised")
+    loop = max(loops, key=lambda n: n.id)
+    stepvar = norm(loop.ast.target)
+    guards = [(e, p) for e, p in g.guards(site)
+              if any(isinstance(x, ast.Name) and x.id in (stepvar, 'sleeptime') for x in ast.walk(e))]
+    # the local holding the delay: the operand of abs() feeding `diff`
+    local_names = {t.id for x in ast.walk(mt.node) for t in ast.walk(x) if isinstance(t, ast.Name)
+                   and isinstance(t.ctx, ast.Store)}
+    dvars = ({x.id for e, _ in guards for x in ast.walk(e) if isinstance(x, ast.Name)} & local_names) - {stepvar}
+    ck.need(R11, len(dvars) == 1, f"_maintask: the delay variable was not identified ({sorted(dvars)})")
+    dvar = dvars.pop()
+    glob = ModuleGlobals(prog, mt.module, {})
+    tt_error = glob['_TT_ERROR'] if '_TT_ERROR' in glob else None
+    ck.need(R11, isinstance(tt_error, (int, float)), "_TT_ERROR is not a foldable constant")
+    bad = []
+    n = 0
+    for step in (0, 1, 2):
+        for delay in (-90000.0, -4200.0, -(tt_error + 0.5), 3600.0 + tt_error + 0.5, 7000.0, 40000.0, 83700.0):
+            env = {stepvar: step, dvar: delay, 'diff': abs(delay)}
+            n += 1
+            try:
+                reached = all(bool(MiniEval(R11, dict(env), globals_=glob).ev(e)) == p for e, p in guards)
+                flagged = reached and bool(MiniEval(R11, dict(env), globals_=glob).ev(call.args[0]))
+            except (_Fault, _Raised) as exc:
+                raise AnalysisError(R11, f"guard evaluation failed: {exc}")
+            if not flagged:
+                bad.append(f"step {step}, delay {delay:+.1f} s: " +
+                           ("the reset test is not reached" if not reached else "the reset flag is not set"))
+    ck.abstract_cases += n
+    ck.ob(R11, f"{mt.fid} :: impossible delays reach the reset", not bad,
+          f"all {n} combinations of step and an impossible delay set the reset flag" if not bad else
+          '; '.join(bad[:3]) + " -- the scheduler then sleeps for that delay (up to a day) without "
+          "recalculating any block", mt, site.ast)
